@@ -12,10 +12,9 @@ import json
 import sys
 import warnings
 
+import c12_lib as L   # imports renormalizer before numpy
 import numpy as np
 import scipy.linalg
-
-import c12_lib as L
 
 warnings.filterwarnings("ignore")
 
@@ -223,6 +222,18 @@ def check_small(case, rng):
         fails.append({"what": "one-site projector splitting does not conserve the energy", "m": m, "drift": worst_e, "scale": escale})
     if max(cur.bond_dims) > m:
         fails.append({"what": "one-site scheme changed the bond dimension", "bond_dims": stats["bond_dims"], "m": m})
+    # time reversal: on a chain the one-site step is a symmetric composition (C12_ps_symmetric_linear), so a step
+    # followed by a step with -tau restores the state at ANY bond dimension; on a branching tree it is not symmetric
+    # (C12_ps_symmetric_iff_linear) and the deviation is only recorded
+    def is_chain(d):
+        return len(d["c"]) <= 1 and all(is_chain(x) for x in d["c"])
+    a = L.config(ttns.copy(), "ps", m=m).evolve(ttno, step, normalize=False)
+    b = L.config(a, "ps", m=m).evolve(ttno, -step, normalize=False)
+    back = float(np.linalg.norm(L.dense(b, order) - psi0))
+    stats["reversal_dev"] = back
+    stats["chain"] = bool(is_chain(case["tree"]))
+    if stats["chain"] and back > TOL_DRIFT:
+        fails.append({"what": "one-site step on a chain is not undone by the step with -tau", "m": m, "dev": back})
     # the state really is truncated (otherwise the check says nothing about 'any bond dimension')
     full = L.TTNS.random(bt, int(case.get("qntot", 0)), 256)
     stats["truncated"] = bool(sum(ttns.bond_dims) < sum(full.bond_dims))
